@@ -620,7 +620,9 @@ def build_inputs(p: Plan, ctx, wd: str) -> dict:  # noqa: C901
         secs.append({"InstallSRK": {"InstallSRK_Table": "srk_table.bin", "InstallSRK_SourceIndex": p.srk}})
         extras = []
         if p.set_engine:
-            extras.append({"SetEngine": {"SetEngine_HashAlgorithm": "sha256", "SetEngine_Engine": p.engine, "SetEngine_EngineConfiguration": 0}})
+            # engine configuration byte: non-zero values must survive build -> parse -> re-export like every other field
+            ecfg = 0 if str(p.engine).upper() == "ANY" else core.pick(rng, [0, 1, 0x08, 0x31, 0xFF, rng.randrange(256)])
+            extras.append({"SetEngine": {"SetEngine_HashAlgorithm": "sha256", "SetEngine_Engine": p.engine, "SetEngine_EngineConfiguration": ecfg}})
         if p.unlock:
             u = {"Unlock_Engine": p.unlock[0], "Unlock_Features": p.unlock[1]}
             if p.unlock[3]:
